@@ -232,8 +232,87 @@ def r184(ctx, fx):
         ctx.fail_closed(rid, "fewer than 2 MemoryAccessor::read implementations found")
 
 
+def r185(ctx, fx):
+    rid = ctx.rule("R18.5", "every pending assertion / trace is compared with the program counter before each instruction: the scan in execute_instruction starts at "
+                   "index 0 unconditionally, runs while idx < test_elements.len(), and the only test that decides whether an element fires is the equality of "
+                   "its snapshot pc with the cpu's pc — a pre-filter (address window, early exit) makes assertions outside it silently pass")
+    ex = fx.fn("mos::test_runner::TestRunner::execute_instruction")
+    if ex is None:
+        ctx.fail_closed(rid, "TestRunner::execute_instruction not found")
+        return
+    key = "execute_instruction|scan"
+    # the loop whose condition compares a local with test_elements.len()
+    loops = []
+    for n in lib.hwalk(ex.hir["body"]):
+        if n.get("k") == "loop":
+            for i in lib.hwalk(n["body"]):
+                if i.get("k") == "if":
+                    c = lib.hdesc(i["cond"])
+                    if c[0] == "Lt" and "test_elements" in repr(c) and "::len" in repr(c) and c[1][0] == "v":
+                        loops.append((n, c[1][1]))
+                    break
+    if not loops:
+        ctx.inst(rid, key, nontrivial=False)
+        ctx.not_decided("execute_instruction no longer scans test_elements with an index loop: which elements are compared with the pc is not decided")
+        return
+    loop, idx = loops[0]
+    init = None
+    for n in lib.hwalk(ex.hir["body"]):
+        if n.get("k") == "let" and n["pat"].get("k") == "bind" and n["pat"].get("name") == idx and "init" in n:
+            init = n["init"]
+    ctx.inst(rid, key, sample={"index": idx, "init": repr(lib.hdesc(init))[:60] if init else None})
+    if init is None or lib.hlit(init) != 0:
+        ctx.finding(rid, key, "the scan for due assertions does not start at index 0 unconditionally (`%s` is initialised with %s): elements before the start — or all "
+                    "of them, when a pre-filter sets it to len() — are never compared with the program counter, so a false assertion there passes silently" % (
+                        idx, repr(lib.hdesc(init))[:80] if init else "?"), ex.where)
+    # no break / return / continue inside the scan other than the loop's own exit
+    exits = [x for x in lib.hwalk(loop["body"]) if x.get("k") in ("ret",) or (x.get("k") == "break" and False)]
+    if exits:
+        ctx.finding(rid, key + "|early-exit", "the scan over the pending assertions can be left before every element was looked at", "%s:%s" % (ex.file, exits[0].get("ln")))
+    # the firing test: equality with the cpu's pc only
+    conds = [lib.hdesc(x) for x in lib.hwalk(loop["body"]) if x.get("k") == "binary" and x.get("op") in ("Eq",)]
+    if not any("get_program_counter" in repr(c) or "'pc'" in repr(c) for c in conds):
+        ctx.finding(rid, key + "|test", "an element no longer fires on equality of its pc with the cpu's program counter", ex.where)
+
+
+def r186(ctx, fx):
+    rid = ctx.rule("R18.6", "the emulated memory is filled in the address space the cpu starts in: TestRunner::new sets the program counter from the test's symbol (a "
+                   "target address) and loads the bank image where it is *stored*; for relocated segments (`pc = …`) the two differ, so the constructor also "
+                   "loads them at an address derived from Segment::target_offset — otherwise a test in such a segment runs a BRK in empty memory and passes")
+    new = fx.fn("mos::test_runner::TestRunner::new")
+    if new is None:
+        ctx.fail_closed(rid, "TestRunner::new not found")
+        return
+    key = "TestRunner::new|relocated-segments"
+    lets = {}
+    for n in lib.hwalk(new.hir["body"]):
+        if n.get("k") == "let" and n["pat"].get("k") == "bind" and "init" in n:
+            lets[n["pat"]["name"]] = n["init"]
+    loads = [x for x, p in lib.hir_calls(new.hir["body"], "BasicRam::load_program")]
+    setpc = [x for x, p in lib.hir_calls(new.hir["body"]) if p and p.endswith("set_program_counter")]
+
+    def expand(e, depth=3):
+        d = repr(lib.hdesc(e))
+        if depth:
+            for x in lib.hwalk(e):
+                if x.get("k") == "path" and (x.get("res") or {}).get("dk") == "Local" and lib.hpath(x) in lets:
+                    d += expand(lets[lib.hpath(x)], depth - 1)
+        return d
+    starts = [expand(lib.hargs(x)[1]) for x in loads]
+    ctx.inst(rid, key, sample={"load_program_sites": len(loads), "set_program_counter_sites": len(setpc),
+                               "start_arguments_using_target_offset": sum(1 for d in starts if "target_offset" in d)})
+    if not loads or not setpc:
+        ctx.fail_closed(rid, "load_program / set_program_counter not found in TestRunner::new")
+        return
+    if not any("target_offset" in d for d in starts):
+        ctx.finding(rid, key, "TestRunner::new loads memory at the addresses the bank is stored at only, but starts the cpu at the test's target address: a `.test` "
+                    "inside a segment with `pc = …` executes empty memory (BRK) and is reported ok after 0 cycles whatever its assertions say", new.where)
+
+
 def run(ctx):
     fx = ctx.facts
+    r185(ctx, fx)
+    r186(ctx, fx)
     r181(ctx, fx)
     r182(ctx, fx)
     r183(ctx, fx)
